@@ -343,10 +343,12 @@ class PFITSReader(Filterbank):
         if skipback >= gulp:
             msg = f"readsamps ({gulp}) must be > skipback ({skipback})"
             raise ValueError(msg)
-        nreads, lastread = divmod(nsamps, (gulp - skipback))
-        if lastread < skipback:
-            nreads -= 1
-            lastread = nsamps - (nreads * (gulp - skipback))
+        # Full blocks must lie within the requested range; what is left after them
+        # begins with the skipback samples that repeat the previous block.
+        nreads = (nsamps - gulp) // (gulp - skipback) + 1
+        lastread = nsamps - (nreads * (gulp - skipback))
+        if lastread == skipback:
+            lastread = 0
         blocks = [(ii, gulp, -skipback) for ii in range(nreads)]
         if lastread != 0:
             blocks.append((nreads, lastread, 0))
